@@ -464,7 +464,23 @@ def tie_sweep(thorough=False):
                 yield assign_hashes(sched('T', jobs, edges=edges, window=win))
 
 
+def external_cancel_sweep(thorough=False):
+    """the caller of co_run() gives up (asyncio.wait_for) while the run is in
+    each phase, at depth 1 and 2: nothing the run started may outlive it"""
+    half = [x / 2 for x in range(0, 11)]
+    for x, tP, cdur, sdur, sdtN in itertools.product(half, [None, 1.5, 3], [0, 1], [0, 1], [0, 1, None]):
+        inner = sched('N', [atom('a', 2, cdur=cdur, sdur=sdur, post=1),
+                            atom('b', 1, outcome='raise'),
+                            atom('c', 1.5, coro=True)],
+                      edges=[('c', 'b')], sdt=sdtN, critical=True)
+        top = sched('P', [inner, atom('p', 3, cdur=1, sdur=1), atom('f', None, forever=True, ticker=1)],
+                    timeout=tP, sdt=1)
+        top['entry'] = dict(wait_for=x)
+        yield assign_hashes(top)
+
+
 SWEEPS = {
+    'extcancel': external_cancel_sweep,
     'phase': phase_sweep,
     'phasew': phase_sweep_windowed,
     'cube': flag_cube,
